@@ -272,6 +272,26 @@ def run(index, rep, tier):
                 rep.check(t == sw, "R17.5", f.qualname, "children picked by position enter an asymmetric expression: %s" % norm(e)[:60], fn_where(f, n), "%s: `%s` is symmetric in the two children" % (f.name, norm(e)[:50]),
                           "%s combines the first and the second child asymmetrically in `%s`: the statistic changes when the children of a node are listed in the other order (rotation, ladderizing)" % (f.qualname, norm(e)[:80]))
         rep.floor("R17.5", "expressions over positionally selected children in treemeasure", 2, npos)
+        # picking children by position presupposes a fixed number of children: such a function refuses other arities
+        npick = 0
+        for f in index.functions_in_module(TMS):
+            picks = [x for x in walk_no_nested(f.node) if isinstance(x, ast.Subscript) and isinstance(x.slice, (ast.Constant, ast.UnaryOp)) and "child" in norm(x.value) and const_value(x.slice, None) is not None or
+                     (isinstance(x, ast.Subscript) and isinstance(x.slice, ast.UnaryOp) and isinstance(x.slice.operand, ast.Constant) and "child" in norm(x.value))]
+            if not picks:
+                continue
+            npick += 1
+            guards = [r for r in walk_no_nested(f.node) if isinstance(r, ast.Raise)]
+            pmf = parent_map(f.node)
+            arity_guard = False
+            for r in guards:
+                cur = pmf.get(r)
+                while cur is not None and cur is not f.node:
+                    if isinstance(cur, ast.If) and any(isinstance(c, ast.Call) and call_name(c) == "len" and c.args and "child" in norm(c.args[0]) for c in ast.walk(cur.test)):
+                        arity_guard = True
+                    cur = pmf.get(cur)
+            rep.check(arity_guard, "R17.5", f.qualname, "children picked by position without an arity check: %s" % norm(picks[0])[:40], fn_where(f, picks[0]), "%s refuses nodes with another number of children before picking children by position" % f.name,
+                      "%s picks children by position (`%s`) without refusing nodes that have a different number of children: on a polytomy the children in between are ignored, so the statistic depends on which child happens to be listed first or last" % (f.qualname, norm(picks[0])[:50]))
+        rep.floor("R17.5", "functions of treemeasure picking children by position", 1, npick)
 
     # ---- R17.6
     with rep.section("R17.6"):
